@@ -354,12 +354,15 @@ func (w *fsWallet) loadWalletFile(ctx context.Context, addr ethtypes.Address0xHe
 }
 
 func (w *fsWallet) getKeyAndPasswordFiles(ctx context.Context, addr ethtypes.Address0xHex, primaryFilename string, primaryFile []byte) (kf string, pf string, err error) {
-	if strings.ToLower(w.conf.Metadata.Format) == "auto" {
-		w.conf.Metadata.Format = strings.TrimPrefix(w.conf.Filenames.PrimaryExt, ".")
+	// Resolve "auto" locally on each call: this function runs concurrently for different
+	// signing requests, so it must not write to the shared configuration.
+	format := w.conf.Metadata.Format
+	if strings.ToLower(format) == "auto" {
+		format = strings.TrimPrefix(w.conf.Filenames.PrimaryExt, ".")
 	}
 
 	var metadata map[string]interface{}
-	switch w.conf.Metadata.Format {
+	switch format {
 	case "toml", "tml":
 		err = toml.Unmarshal(primaryFile, &metadata)
 	case "json":
@@ -380,7 +383,7 @@ func (w *fsWallet) getKeyAndPasswordFiles(ctx context.Context, addr ethtypes.Add
 		return primaryFilename, path.Join(passwordPath, passwordFilename), nil
 	}
 	if err != nil {
-		log.L(ctx).Errorf("Failed to parse '%s' as %s: %s", primaryFilename, w.conf.Metadata.Format, err)
+		log.L(ctx).Errorf("Failed to parse '%s' as %s: %s", primaryFilename, format, err)
 		return "", "", i18n.NewError(ctx, signermsgs.MsgWalletFailed, addr)
 	}
 
